@@ -119,7 +119,7 @@ def renderEnts (es : List Ent) : List String :=
 /-- Fault position in the model: number of pre-commit closures that ran before the failure. -/
 def faultK (ev : String) (n : Nat) : Nat :=
   if ev.startsWith "pre" then (ev.drop 3).toString.toNat!
-  else if ev == "commit" || ev == "commit-stmt" then n else 0
+  else if ev == "commit" || ev == "commit-stmt" || ev == "commit-ctx" then n else 0
 
 def evClass (ev : String) : String :=
   if ev.startsWith "pre" then "precommit-hook" else ev
@@ -151,6 +151,12 @@ def judgeCase (_k : Nat) (lines : List String) : Verdict := Id.run do
     div := div ++ ["rollback-order-probe-inconclusive"]
   if rev != Pithos.Gen.TxFsHooks.rollbackReverse then
     div := div ++ [s!"rollback-order:extracted={Pithos.Gen.TxFsHooks.rollbackReverse},observed={rev}"]
+  -- hooks registered through a child handle: pre-commit hooks in order, then the after-commit hook;
+  -- the rollback hook runs with the root's Rollback (model: `TxFs.Ctl.registerAll Routing.code`)
+  let hooks := kvOf (tokens cfg) "hooks"
+  if hooks != "PQa,r" then div := div ++ [s!"hook-routing-through-child-handle:expected=PQa,r,observed={hooks}"]
+  let nested := kvOf (tokens cfg) "nested" == "1"
+  stats := addStats stats [(if nested then "histories_nested_in_outer_transaction" else "histories_direct", 1)]
   -- per-op state
   let mut ctx : Ctx := {}
   let mut st : State := {}
@@ -161,6 +167,8 @@ def judgeCase (_k : Nat) (lines : List String) : Verdict := Id.run do
   let mut fEv := ""
   let mut fRes := ""
   let mut fPost := ""
+  let mut fBad := 0
+  let mut badPre := 0
   let mut fCalls : List Call := []
   let mut firstDiff := ""
   let mut resLine := ""
@@ -177,13 +185,16 @@ def judgeCase (_k : Nat) (lines : List String) : Verdict := Id.run do
       opLine := l; opIdx := opIdx + 1; resLine := ""; firstDiff := ""
       stats := addStats stats [("op_" ++ name, 1)]
       if !opKinds.contains name then opKinds := opKinds ++ [name]
-    | ["pre", d] => pre := d      -- `pre` / `dir0` always describe the state right before the next call
+    | "pre" :: d :: _ =>           -- `pre` / `dir0` always describe the state right before the next call
+      pre := d
+      badPre := (kvOf t "bad").toNat!
     | ["dir0", es] =>
       let (ents, junk) := parseEnts es
       dir0 := ents
       if !junk.isEmpty then div := div ++ [s!"op{opIdx}:unparsable-directory-entry:{junk.headD ""}"]
     | "f" :: _ :: _ =>
       fEv := kvOf t "ev"; fRes := kvOf t "res"; fPost := kvOf t "post"; firstDiff := ""
+      fBad := (kvOf t "bad").toNat!
       nFaults := nFaults + 1
       stats := addStats stats [("fault_" ++ evClass fEv, 1)]
     | ["fc", cs] => fCalls := parseCalls cs
@@ -194,7 +205,13 @@ def judgeCase (_k : Nat) (lines : List String) : Verdict := Id.run do
       let tag := s!"op{opIdx}[{opName}]:fault@{fEv}"
       -- TIE (b): the injected failure must surface as an error
       if !(fRes.startsWith "err") then
-        div := div ++ [s!"{tag}:injected-failure-not-reported:res={fRes}"]
+        -- the operation swallowed the failure of one of its steps and reported success. If an object
+        -- that was readable before is unreadable now, the failed step has left its trace (JUDGE);
+        -- otherwise it is "only" a disagreement with the model, which says: error (TIE b)
+        if fBad > badPre then
+          vio := vio ++ [(s!"C03.swallowed-fault-corrupts-state.{evClass fEv}", s!"{tag}:operation-answered-{fRes.take 40}-although-a-step-failed;unreadable-object-versions:{badPre}->{fBad};{firstDiff.take 140}")]
+        else
+          div := div ++ [s!"{tag}:injected-failure-not-reported:res={fRes}"]
       else
         -- JUDGE: API state
         if fPost != pre then
@@ -209,13 +226,14 @@ def judgeCase (_k : Nat) (lines : List String) : Verdict := Id.run do
       let regs := regsOf fCalls
       if !regs.isEmpty then nFaultsRegs := nFaultsRegs + 1
       let k := if fEv.startsWith "ps." then 0 else faultK fEv regs.length
-      let predFs := if fEv == "commit-stmt" then (commitStmtFault rev regs (filesOf dir0)).files
+      let predFs := if fEv == "commit-stmt" || fEv == "commit-ctx" then (commitStmtFault rev regs (filesOf dir0)).files
         else (commitFault rev regs k (filesOf dir0)).files
       let pred := renderFiles predFs dir0 fCalls
       if pred != renderEnts after then
         div := div ++ [s!"{tag}:directory:model={pred},impl={renderEnts after}"]
       -- the next call (another faulted attempt or the normal execution) starts from here
       pre := fPost
+      badPre := fBad
       dir0 := after
     | "res" :: _ => resLine := l
     | ["rc", cs] => rCalls := parseCalls cs
